@@ -78,6 +78,15 @@ def lattice(tier):
     for kind in ("ldn", "udn", "cdn"):
         for nxs in itertools.product((1, 2, 3), repeat=3):
             mem.append((kind, (2, 3, 2, 3, 4, 2), nxs, 1, False))
+    # inter-separatrix segments wider than one cell, with and without guard cells: a one-cell
+    # segment has both corners of its y-edge on lines shared with the neighbouring segments, so a
+    # wrong or missing y-connection of that segment alone is not exhibited by its corners
+    for kind in ("ldn", "udn"):
+        for s in ((2, 3, 2, 3, 4, 2), (4, 4, 4, 4, 4, 4)):
+            for nxs in ((2, 2, 2), (1, 3, 2)):
+                for g in (0, 2):
+                    for uo in (False, True):
+                        mem.append((kind, s, nxs, g, uo))
     for n in circ:
         for g in (0, 1, 2):
             mem.append(("circular", (n,), (2,), g, False))
